@@ -278,6 +278,19 @@ def _shrink_job(args):
     return shrink_lite(_load(prop_id), case, bucket, budget)
 
 
+def _reproduces_fresh(prop_id, path):
+    """Does `./check <id> --replay <path>` report the violation in a fresh interpreter?  (True on any doubt.)"""
+    import subprocess
+
+    try:
+        env = dict(os.environ, VERIF_EVIDENCE_DIR=os.path.join(REPLAY_DIR, ".fresh_evidence"), VERIF_REPLAY_DIR=REPLAY_DIR)
+        r = subprocess.run([sys.executable, "-W", "ignore", os.path.join(VERIF, "check"), prop_id, "--replay", path],
+                           env=env, stdout=subprocess.PIPE, stderr=subprocess.DEVNULL, timeout=600)
+        return r.returncode != 0 or b"VIOLATION" in r.stdout
+    except Exception:
+        return True
+
+
 def _shrink_and_message(args):
     prop_id, case, bucket, budget, msg = args
     import signal
@@ -387,6 +400,7 @@ def run_check(prop_id, tier, seed_value, replay=None):
             known_hit += 1
             lines.append("KNOWN-FINDING: property=%s %s [%s]" % (prop_id, k["what"], bucket))
             continue
+        original, original_msg = case, msg
         if replay is None:
             case, msg = shrunk.get(bucket, (case, msg))
         violations += 1
@@ -394,6 +408,15 @@ def run_check(prop_id, tier, seed_value, replay=None):
         if replay is None:
             with open(path, "w") as f:
                 json.dump({"property": prop_id, "bucket": bucket, "message": msg, "case": case}, f, indent=1, default=str)
+            # the replay file must reproduce in a FRESH process (a failure that depends on what earlier cases left
+            # behind in the campaign process can be shrunk to a case that no longer carries its own cause): if the
+            # shrunk case does not, fall back to the unshrunk one
+            if case is not original and not _reproduces_fresh(prop_id, path):
+                path0 = os.path.join(REPLAY_DIR, "%s-%s.json" % (prop_id, case_hash(original)))
+                with open(path0, "w") as f:
+                    json.dump({"property": prop_id, "bucket": bucket, "message": original_msg, "case": original,
+                               "note": "unshrunk: the reduced case did not reproduce in a fresh process"}, f, indent=1, default=str)
+                case, msg, path = original, original_msg, path0
         else:
             path = replay
         print("  bucket=%s :: %s" % (bucket, msg))
